@@ -45,8 +45,20 @@ def gen(spec, lv):
     return {"text": "\n".join(lines) + "\n", "pre": pre}
 
 
+BASIC = ["dumps", "to_DiGraph", "attributes", "call", "match_as_template"]
+
+
 def gen_specs(tier, seed):
-    return [(i, op) for i in range(len(SCRIPTS)) for op in OPS]
+    specs = [(i, op) for i in range(len(SCRIPTS)) for op in OPS]
+    if tier == "thorough":
+        # every ordered pair / some triples of read-only operations (sequences, beyond the single inductive step)
+        import itertools
+        for i in range(len(SCRIPTS)):
+            for a, b in itertools.product(BASIC, repeat=2):
+                specs.append((i, a + "+" + b))
+            for a, b, c in (("to_DiGraph", "call", "dumps"), ("call", "call", "to_DiGraph"), ("match_as_template", "dumps", "call"), ("attributes", "to_DiGraph", "match_as_template")):
+                specs.append((i, a + "+" + b + "+" + c))
+    return specs
 
 
 def snap(prog, bb):
@@ -58,6 +70,10 @@ def snap(prog, bb):
 
 def apply_op(op, prog, bb, symbolic, pvals):
     from blackbird.utils import to_DiGraph, match_template
+    if "+" in op:
+        for part in op.split("+"):
+            apply_op(part, prog, bb, symbolic, pvals)
+        return
     if op in ("dumps", "dumps_twice"):
         bb.dumps(prog)
         if op == "dumps_twice":
@@ -89,7 +105,7 @@ def run_spec(spec):
     bb = w["bb"]
     si, op = spec
     out = {"spec": spec, "result": "holds", "paths": 0, "stats": None, "why": None, "cex": None, "funcs": [], "reach": 0}
-    concrete = op.startswith("match")
+    concrete = "match" in op
     if concrete:
         r = concrete_check(spec, None, w)
         out["text"] = "concrete structure run: %s on script %d" % (op, si)
